@@ -35,6 +35,8 @@ std::string tname()
         return "Tracked<copy+move>";
     } else if constexpr (std::is_same_v<T, mc::Tracked<mc::move_only>>) {
         return "Tracked<move-only>";
+    } else if constexpr (std::is_same_v<T, mc::Tracked<mc::trivial_default>>) {
+        return "Tracked<trivial-default-ctor>";
     } else {
         return "Tracked<copy-only>";
     }
@@ -1308,6 +1310,7 @@ void explore_boundary(mc::Reporter& r, std::size_t n, int fillKind, std::size_t 
 using TCM = mc::Tracked<mc::copy_move>;
 using TMO = mc::Tracked<mc::move_only>;
 using TCO = mc::Tracked<mc::copy_only>;
+using TTD = mc::Tracked<mc::trivial_default>;
 
 template <typename T, std::size_t N, int K>
 void add_sv(mc::Main& m, std::vector<std::string> tiers, int poolLen)
